@@ -37,18 +37,21 @@ def labelsSpec (n : Nat) (D : Dendro α) (labels : List Nat) (sorted : Bool) : E
 section straight
 variable {α : Type} [LT α] [DecidableLT α]
 
-/-- every merge whose whole subtree lies strictly below `thr` is applied (its leaves share one label) -/
+/-- every merge strictly below `thr` is applied: all the leaves below it share one label (the statement of C08,
+    literally; on a dendrogram with an inversion — a child higher than its parent — the code does not meet it, F24) -/
 def belowApplied (n : Nat) (D : Dendro α) (labels : List Nat) (thr : α) : Bool :=
   (List.range D.length).all fun t =>
-    let rowsBelow := subtreeRows n D (D.length + 1) (n + t)
-    if rowsBelow.all (fun u => match D[u]? with | some r => decide (r.h < thr) | none => false) then
-      match leaves n D (n + t) with
-      | [] => true
-      | v :: vs => vs.all fun w => labels.getD w 0 == labels.getD v 0
-    else true
+    match D[t]? with
+    | none => true
+    | some r =>
+      if r.h < thr then
+        match leaves n D (n + t) with
+        | [] => true
+        | v :: vs => vs.all fun w => labels.getD w 0 == labels.getD v 0
+      else true
 
-/-- `cut_straight`: at least `n_clusters` clusters when no threshold is given (exactly `n_clusters` when the
-    heights are distinct and never decrease towards the root); with a threshold every merge below it applied -/
+/-- `cut_straight`: at least `n_clusters` clusters when no threshold is given, exactly `n_clusters` when the
+    heights are distinct; with a threshold every merge below it applied -/
 def straightSpec (n : Nat) (D : Dendro α) (nClusters : Option Nat) (threshold : Option α)
     (labels : List Nat) (sorted : Bool) : Except String Unit := do
   labelsSpec n D labels sorted
@@ -59,7 +62,7 @@ def straightSpec (n : Nat) (D : Dendro α) (nClusters : Option Nat) (threshold :
   match threshold, want with
   | none, some c =>
     need (c ≤ k) "fewer-clusters-than-n_clusters"
-    if DistinctHeights D && MonoPaths n D then need (k == c) "not-exactly-n_clusters"
+    if DistinctHeights D then need (k == c) "not-exactly-n_clusters"
   | _, _ => pure ()
   match threshold with
   | some thr => need (belowApplied n D labels thr) "merge-below-threshold-not-applied"
